@@ -60,7 +60,7 @@ InTokens(d, lvl) ==
     [] d.dom = "enum"      -> MemIn(d, lvl)
     [] d.dom = "bool"      -> Bools
     [] d.dom = "underline" -> Bools \cup MemIn(d, lvl)
-    [] d.dom = "str"       -> (CASE lvl = 1 -> {Tok("in", s, 0) : s \in {"ascii", "unicode", "empty", "long", "spaces"}}
+    [] d.dom = "str"       -> (CASE lvl = 1 -> {Tok("in", s, 0) : s \in {"ascii", "unicode", "empty", "long", "spaces"} \ (IF d.nonEmpty THEN {"empty"} ELSE {})}
                                          \cup {Tok("in", "typ", i) : i \in 1..d.ntyp}
                                  [] lvl = 2 -> {Tok("in", "ascii", 0), Tok("in", "unicode", 0)}
                                  [] OTHER   -> {Tok("in", "ascii", 0)})
